@@ -8,7 +8,7 @@ from ..core import Fail, Result
 
 ID = "C15"
 RULE = ("case = generic SDE (Stratonovich, 4 noise types, drawn sizes) x dyadic (t0, dt) x n in 1..64 steps x entropy x "
-        "float64. reversible_heun is run forward with extra=True; then reversible_heun is run on the time-reversed, "
+        "float64; variants: a single step clipped at ts[-1] (span < dt), outputs strictly inside steps. reversible_heun is run forward with extra=True; then reversible_heun is run on the time-reversed, "
         "negated SDE (f_r(s,y) = -f(-s,y), g_r(s,y) = -g(-s,y)) with ReverseBrownian and the negated final (f,g) extra "
         "state; every state of the forward trajectory must be reconstructed: relative 1e-12 for a single step, 1e-8 for "
         "n <= 64 steps; the reconstructed extra state must equal the negated initial one. Non-trivial = batch*d >= 2 and "
@@ -42,7 +42,10 @@ def _case(draw, tier):
     if draw(st.sampled_from([True, False, False])):
         n = 1
     return {"spec": spec, "t0": t0, "dt": dt, "n": n, "entropy": draw(st.integers(0, 2 ** 31 - 2)),
-            "levy": draw(st.sampled_from(["none", "none", "space-time", "davie"]))}
+            "levy": draw(st.sampled_from(["none", "none", "space-time", "davie"])),
+            # a single step clipped at ts[-1] (span = frac * dt < dt) and outputs strictly inside steps (dyadic offsets)
+            "clip_frac": draw(st.sampled_from([None, None, 0.5, 0.25, 0.75])) if n == 1 else None,
+            "dense": draw(st.sampled_from([False, False, True]))}
 
 
 def strategy(tier):
@@ -56,7 +59,14 @@ def run_case(case):
     sde = sdes.build_generic(spec)
     y0 = sdes.y0_for(spec)
     t0, dt, n = case["t0"], case["dt"], case["n"]
-    ts = torch.tensor([t0 + k * dt for k in range(n + 1)], dtype=torch.float64)
+    times = [t0 + k * dt for k in range(n + 1)]
+    if case.get("clip_frac"):
+        times = [t0, t0 + case["clip_frac"] * dt]          # one step, clipped: the step taken is shorter than dt
+    elif case.get("dense"):
+        # two extra outputs inside every other step (dyadic fractions, so that the reversed times mirror exactly)
+        extra_t = [t0 + (k + f) * dt for k in range(0, n, 2) for f in (0.25, 0.75)]
+        times = sorted(set(times + extra_t))
+    ts = torch.tensor(times, dtype=torch.float64)
     bm = sdes.make_bm(torchsde, spec, ts[0], ts[-1], case["entropy"], levy=case["levy"])
     sig = {"noise_type": spec["noise_type"], "n": "1" if n == 1 else "many"}
     with torch.no_grad():
@@ -73,7 +83,8 @@ def run_case(case):
         max(1.0, float(f0.abs().max()), float(g0.abs().max()), scale)
     tol = 1e-12 if n == 1 else 1e-8
     labels = [f"noise={spec['noise_type']}", "single_step" if n == 1 else f"steps>={8 if n >= 8 else 2}",
-              f"levy={case['levy']}"]
+              f"levy={case['levy']}"] + (["clipped_single_step"] if case.get("clip_frac") else []) + \
+        (["outputs_inside_steps"] if case.get("dense") and not case.get("clip_frac") else [])
     fail = None
     if not (e <= tol) or not bool(torch.isfinite(back).all()):
         fail = Fail("not_reversible", f"reverse solve reconstructs the forward trajectory only to {e:.3e} (relative) over "
